@@ -1,7 +1,11 @@
 pub trait Buffer {
+//@ /// the bytes of the buffer (model of the user-supplied storage); its length never changes
+//@ spec fn bytes(&self) -> Seq<u8>;
     fn as_slice(&self) -> &[u8];
+//@ ensures r@ == self.bytes(),
 
     fn as_slice_mut(&mut self) -> &mut [u8];
+//@ ensures r@ == old(self).bytes(), final(self).bytes() == final(r)@,
 
     #[allow(unused_variables)]
     fn grow(&mut self, new_size: usize) {
@@ -9,15 +13,20 @@ pub trait Buffer {
     }
 
     fn is_empty(&self) -> bool {
+//@ ensures r == (self.bytes().len() == 0),
         self.as_slice().is_empty()
     }
 
     fn len(&self) -> usize {
+//@ ensures r == self.bytes().len(), self.bytes().len() <= isize::MAX,
+//@ ---
+//@ proof { broadcast use axiom_slice_len_bound; }
         self.as_slice().len()
     }
 }
 
 impl<const SIZE: usize> Buffer for [u8; SIZE] {
+//@ open spec fn bytes(&self) -> Seq<u8> { self@ }
     fn as_slice(&self) -> &[u8] {
         self
     }
@@ -28,6 +37,7 @@ impl<const SIZE: usize> Buffer for [u8; SIZE] {
 }
 
 impl Buffer for &mut [u8] {
+//@ open spec fn bytes(&self) -> Seq<u8> { (**self)@ }
     fn as_slice(&self) -> &[u8] {
         self
     }
